@@ -115,7 +115,17 @@ pub fn load_tx(f: &Fixture) -> Vec<u8> {
     let repo = std::env::var("VERIF_REPO").unwrap_or_else(|_| "/repo".into());
     let p = format!("{}/test_data/{}", repo, f.file);
     let s = std::fs::read_to_string(&p).unwrap_or_else(|e| panic!("fixture {p}: {e}"));
-    hex::decode(s.trim()).unwrap_or_else(|e| panic!("fixture {p}: {e}"))
+    let tx = hex::decode(s.trim()).unwrap_or_else(|e| panic!("fixture {p}: {e}"));
+    if f.name == "shelley4-changed-script" {
+        // as the crate's test does: keep only the second vkey witness
+        let mut parts = mutate::split(&tx);
+        let mut w = mutate::RawMap::parse(&parts.wits);
+        let (t, ws) = mutate::vkey_wits(&w);
+        mutate::set_vkey_wits(&mut w, t, &ws[1..2]);
+        parts.wits = w.encode();
+        return mutate::join(&parts);
+    }
+    tx
 }
 
 /// Small class code of a validation result (canonical form for the Coq cases):
